@@ -17,12 +17,12 @@ PROFILES = {
     "C02": {"g1": 0.3, "r": {"locate": 8, "resolution": 2, "metrics": 1}},
     "C03": {"w": {"addlinks": 8, "batch": 6}, "r": {"pagelinks": 6, "linksiter": 4, "global": 2}},
     "C04": {"g1": 0.8, "w": {"create": 6, "delete": 3, "addprefix": 3, "rmprefix": 3, "moveprefix": 2}, "r": {"resolution": 8, "global": 2}},
-    "C05": {"g1": 0.85, "w": {"create": 5, "addprefix": 2}, "r": {"pages": 8, "resolution": 2, "global": 2}},
+    "C05": {"g1": 0.85, "w": {"create": 5, "addprefix": 2, "clear": 0.5}, "r": {"pages": 8, "resolution": 2, "global": 2}},
     "C06": {"g1": 1.0, "init_rules": 0.8, "w": {"addrule": 5, "rmrule": 1, "addpage": 8}, "r": {"resolution": 6, "global": 3}},
-    "C07": {"g1": 0.9, "big_ids": 0.12, "w": {"addlinks": 7, "batch": 5, "create": 4}, "r": {"network": 8}},
-    "C08": {"g1": 0.9, "big_ids": 0.08, "w": {"addlinks": 7, "batch": 5, "create": 4}, "r": {"welinks": 8}},
-    "C09": {"g1": 0.9, "w": {"addpage": 10, "addpages": 4, "create": 3}, "r": {"paginate": 8, "pages": 1, "helpers": 1}},
-    "C10": {"g1": 0.9, "w": {"addlinks": 8, "batch": 5, "addpage": 5, "create": 3}, "r": {"paginatelinks": 8, "helpers": 2}},
+    "C07": {"g1": 0.9, "big_ids": 0.12, "w": {"addlinks": 7, "batch": 5, "create": 4, "rmprefix": 2, "delete": 2, "clear": 0.5}, "r": {"network": 8}},
+    "C08": {"g1": 0.9, "big_ids": 0.08, "w": {"addlinks": 7, "batch": 5, "create": 4, "rmprefix": 2, "delete": 2, "clear": 0.5}, "r": {"welinks": 8}},
+    "C09": {"g1": 0.9, "w": {"addpage": 10, "addpages": 4, "create": 3, "clear": 0.5}, "r": {"paginate": 8, "pages": 1, "helpers": 1}},
+    "C10": {"g1": 0.9, "w": {"addlinks": 8, "batch": 5, "addpage": 5, "create": 3, "rmprefix": 2, "delete": 2, "clear": 0.5}, "r": {"paginatelinks": 8, "helpers": 2}},
     "C11": {"w": {"reopen": 4, "clear": 1.2}, "read_rate": 0.7},
     "C12": {"g1": 0.9, "init_rules": 0.5, "w": {"create": 5, "delete": 2, "reopen": 2, "addrule": 2, "clear": 0.6}, "r": {"global": 4}},
     "C13": {"g1": 0.9, "init_rules": 0.6, "w": {"create": 6, "addprefix": 3, "moveprefix": 2, "addrule": 3, "addlinks": 6, "batch": 3}, "r": {"hierarchy": 4, "hierarchy_all": 6}, "read_rate": 0.8,
@@ -33,9 +33,18 @@ PROFILES = {
     "C17": {"g1": 1.0, "r": {"helpers": 8}},
     "C18": {"w": {"reopen": 0, "clear": 0}},
     "C19": {"g1": 0.35, "r": {"metrics": 6, "global": 2}},
-    "C20": {"g1": 0.9, "w": {"addlinks": 8, "batch": 5, "create": 4}, "r": {"mostlinked": 8}},
+    "C20": {"g1": 0.9, "w": {"addlinks": 8, "batch": 5, "create": 4, "rmprefix": 1.5, "delete": 1.5, "clear": 0.8}, "r": {"mostlinked": 8}},
 }
 BUDGET = {"quick": (120, 22), "thorough": (2500, 35)}
+# the translation tie (gen/gen_helpers.py -> lean/Gen): property -> theorems about the GENERATED helper functions
+GEN_TIES = {
+    "C17": ["lru_variations_eq", "https_variation_eq", "C17_source_total", "C17_source_closed", "C17_source_local"],
+    "C09": ["build_pagination_token_eq", "parse_pagination_token_eq", "int_to_base64_eq", "base64_to_int_eq",
+            "C09_source_token_roundtrip", "C09_source_base64_roundtrip"],
+    "C10": ["build_pagination_token_eq", "parse_pagination_token_eq", "C09_source_token_roundtrip"],
+    "C19": ["chunks_iter_eq", "detailed_chunks_iter_eq", "C19_source_chunks"],
+    "C02": ["chunks_iter_eq", "lru_iter_eq", "C19_source_chunks", "C02_source_lru_iter"],
+}
 
 
 class Outcome(object):
@@ -302,8 +311,27 @@ def run(prop, tier, seed, scratch, build):
     nseq, nops = BUDGET[tier]
     profile = PROFILES.get(prop, {})
     oracle_hits, corr_hits = [], []
+    # translation tie for the helper functions this property leans on: never a verdict by itself (the theorems of
+    # lean/Props are about the hand-written model, which the correspondence check ties to the code); when it does not
+    # check, the helper functions get a much larger differential budget below and the evidence says so
+    gen = build.get("gen") or {}
+    tie = GEN_TIES.get(prop)
+    gen_broken = False
+    if tie:
+        gthm = gen.get("theorems", {})
+        lost = [t for t in tie if t not in gthm or not set(gthm[t]) <= leanbuild.ALLOWED_AXIOMS]
+        gen_broken = bool(lost) or not gen.get("ok")
+        out.extra["translation_tie"] = {
+            "what": "traph/helpers.py translated to Lean by gen/gen_helpers.py on this run; each generated function proved equal to the "
+                    "model function (Gen/HelpersEq.lean); property theorems restated on the generated functions (Gen/Lifted.lean)",
+            "functions": gen.get("status"), "theorems": {t: gthm.get(t) for t in tie}, "checks": not gen_broken,
+            "no_longer_checks": lost, "log": (gen.get("log") or "")[-1200:] if gen_broken else ""}
+        if gen_broken:
+            out.notes.append("translation tie for helpers.py does not check on this tree (%s): tie by correspondence only, with a "
+                             "larger budget on the helper functions" % (", ".join(lost) or "build"))
+            print("NOTE property=%s translation tie for traph/helpers.py unavailable or broken; correspondence carries the tie" % prop)
 
-    def one(lines_or_seed, corpus_name=None):
+    def one(lines_or_seed, corpus_name=None, profile=profile, nops=nops):
         if corpus_name is not None:
             lines = lines_or_seed
             fres = corr.replay_impl(scratch, lines)
@@ -345,6 +373,14 @@ def run(prop, tier, seed, scratch, build):
         if time.time() > deadline:
             out.notes.append("time budget reached after %d generated sequences" % (i + 1))
             break
+
+    if gen_broken and len(oracle_hits) < 3 and not corr_hits:
+        hp = dict(profile); hp["r"] = {"helpers": 10, "paginate": 1 if prop in ("C09", "C10") else 0, "metrics": 1 if prop in ("C19", "C02") else 0}
+        hp["read_rate"] = 1.0
+        for i in range(300 if tier == "quick" else 4000):
+            one(base + 500000 + i, profile=hp, nops=5)
+            if len(oracle_hits) >= 3 or corr_hits or time.time() > deadline + 60:
+                break
 
     # property-specific harnesses (direct failing-input finders and the implementation-only ties)
     from . import extra
